@@ -24,8 +24,11 @@ SameChain(ref, run) == /\ Len(run.chain) = Len(ref.chain)
 \* raised by a `panic(k)` statement: for `defer panic(k)` the "location of the panic" is debatable (gc reports
 \* the closing brace of the deferring function), so no position is demanded for it.
 \* (variant "gc" = the same program run by the gc toolchain, used by the oracle guard / audit: it has no PanicError.)
+\* Path: the file that contains the statement; for a program, whose InstructionInfo carries the package path ("main"
+\* for the only file main.go of the main package), that package path is accepted as well - it identifies the same file.
 LinkPosOK(prog, run, lnk, got) ==
-   (prog[lnk.fn][lnk.ix].op = "panic" /\ run.variant # "gc") => (got.path = run.paths[lnk.fn] /\ got.line = run.lines[lnk.fn][lnk.ix])
+   (prog[lnk.fn][lnk.ix].op = "panic" /\ run.variant # "gc") =>
+        (got.path \in {run.paths[lnk.fn], run.pkgs[lnk.fn]} /\ got.line = run.lines[lnk.fn][lnk.ix])
 SamePositions(prog, ref, run) == \A i \in 1..Len(ref.chain) : LinkPosOK(prog, run, ref.chain[i], run.chain[i])
 
 FlowOK(ref, run) == NothingAfterEnd(run) /\ SameOutput(ref, run) /\ SameOutcome(ref, run)
